@@ -470,6 +470,12 @@ func init() {
 				}
 			}
 		})
+		if *sut == "regex" {
+			// the W-method picks one representative per byte class; well-formed multi-byte characters inside the pattern are tried as such
+			for _, t := range []string{"/\u00e9/", "/\u00e9/ x", "/\u00e9+/\nGET /cats", "/\u20ac/", "/\u043f/\n", "/a\u00e9/", "/\u00e9\u00e9/x", "/^\u00e9$/"} {
+				judge([]byte(t))
+			}
+		}
 		// plain enumeration of all strings up to enumLen with dead-prefix pruning (one step past death)
 		var enumerated int64
 		if *enumLen > 0 {
